@@ -332,16 +332,18 @@ func recordTag(r rec) string {
 			return tagCompID
 		}
 	}
-	if r.kind == "IATBatchHeader" {
-		if rs := []rune(r.s); len(rs) >= 50 && hasMB(string(rs[:50])) {
-			return tagIATHdr
-		}
-	}
 	if neg {
 		return tagNeg
 	}
 	if edge {
 		return tagEdge
+	}
+	// (checked last: the defect behind this shape is repaired, a record that also has one of the shapes above
+	// fails for that reason, not for this one)
+	if r.kind == "IATBatchHeader" {
+		if rs := []rune(r.s); len(rs) >= 50 && hasMB(string(rs[:50])) {
+			return tagIATHdr
+		}
 	}
 	return ""
 }
